@@ -318,7 +318,9 @@ func Run(ctx *common.Ctx) int {
 			s, n int
 			out  string
 		}
-		cfgs := []cfg{{1, 20000, ""}, {7, 20000, "rel"}, {300, 20000, "nested/x/y"}, {7, 4096, "abs"}, {1, 1000000, "rel"}, {5, 1000000, ""}, {6, 20000, "samples.bin"}, {3, 20000, "round1/batch.dat"}}
+		cfgs := []cfg{{1, 20000, ""}, {7, 20000, "rel"}, {300, 20000, "nested/x/y"}, {7, 4096, "abs"}, {1, 1000000, "rel"}, {5, 1000000, ""}, {6, 20000, "samples.bin"}, {3, 20000, "round1/batch.dat"},
+			// directory names a path-handling shortcut may trip over: printf verbs, blanks, non-ASCII, a trailing separator, dot segments
+			{4, 20000, "100%done"}, {3, 20000, "a b/c%d e"}, {2, 20000, "样本/%s%v"}, {2, 20000, "trail/"}, {2, 20000, "./dot/../dot2/%%"}, {2, 4096, "cwd%"}}
 		if !quick {
 			cfgs = append(cfgs, cfg{300, 4096, ""}, cfg{33, 1000000, "abs"})
 		}
@@ -327,6 +329,11 @@ func Run(ctx *common.Ctx) int {
 				break
 			}
 			dir := filepath.Join(ctx.Work, fmt.Sprintf("e2e%d", ci))
+			if c.out == "cwd%" {
+				// the working directory itself carries the awkward characters; default output directory
+				dir = filepath.Join(ctx.Work, fmt.Sprintf("e2e %d%%d %%s", ci))
+				c.out = ""
+			}
 			_ = os.MkdirAll(dir, 0o755)
 			args := []string{"-s", fmt.Sprint(c.s), "-n", fmt.Sprint(c.n)}
 			wantDir := defaultDir
@@ -387,7 +394,7 @@ func Run(ctx *common.Ctx) int {
 			_ = os.RemoveAll(dir)
 		}
 	}
-	samples = append(samples, map[string]interface{}{"family": "end-to-end", "runs": e2e, "configs": "s in {1,5,7,300(,33)} x n in {20000, 10^6, 4096} x output forms, then rddetector -i on the result"})
+	samples = append(samples, map[string]interface{}{"family": "end-to-end", "runs": e2e, "configs": "s in {1,5,7,300(,33)} x n in {20000, 10^6, 4096} x output forms (default, relative, nested, absolute, names ending in .bin/.dat, names with printf verbs / blanks / non-ASCII / trailing separator / dot segments, a working directory with such a name), then rddetector -i on the result"})
 	sigs := make([]string, 0)
 	for k := range m.Signatures {
 		sigs = append(sigs, k)
